@@ -10,7 +10,7 @@ TRUSTED = ["modelled, not verified: rate-key resolution is taken from data/regim
            "regime/addon normalisers and scenarios do not take part in the arithmetic and are not modelled; "
            "float64 arithmetic of num is covered by C05 inside the 2^52 domain, which the generator enforces and counts"]
 FIG = ["lines", "sum", "discount", "charge", "tax_included", "total", "tax", "total_with_tax", "payable", "advances", "due",
-       "discount rows", "charge rows", "advance rows", "due dates", "tax categories", "taxes.sum"]
+       "discount rows", "charge rows", "advance rows", "due dates", "tax categories", "taxes.sum", "rounding"]
 
 
 def first_diff(a, b):
